@@ -48,6 +48,15 @@ def main():
                 full = os.path.join(repo, path)
                 src = open(full).read()
                 saved.setdefault(full, src)
+                if old.startswith("__RENAME__"):
+                    ident = old[len("__RENAME__"):]
+                    out, n = re.subn(r"\b" + re.escape(ident) + r"\b", new, src)
+                    if n == 0:
+                        print(f"!! {name}: identifier {ident} not found in {path}")
+                        ok_apply = False
+                        break
+                    open(full, "w").write(out)
+                    continue
                 if src.count(old) != 1:
                     print(f"!! {name}: fragment occurs {src.count(old)} times in {path}")
                     ok_apply = False
